@@ -58,4 +58,22 @@ def poolOp : List String → String
     | _, _, _, _, _, _, _ => "BADLINE"
   | l => if l.getLast? == some "PANIC" then propfail "panic" else "BADLINE"
 
+/-- `wstall <client> <T ms> <MiB> | result@timeoutflag@elapsed`: a send blocked in a write (the peer stopped reading)
+    fails with an error that says it is a timeout, within a small multiple of T -/
+def wstallOp : List String → String
+  | [_client, tms, _mib, res] =>
+    if res == "PANIC" then propfail "panic" else
+    match tms.toNat?, res.splitOn "@" with
+    | some t, [r, tf, e] =>
+      match e.toNat? with
+      | some el =>
+        if r == "HANG" then propfail "send-blocked-far-beyond-the-timeout"
+        else if r.startsWith "ok" then propfail "send-succeeded-although-the-peer-never-read-the-message"
+        else if el > 4 * t + 1500 then propfail "send-returned-late"
+        else if tf != "t" then propfail "timeout-error-does-not-identify-itself-as-timeout"
+        else "ok"
+      | none => "BADLINE"
+    | _, _ => "BADLINE"
+  | l => if l.getLast? == some "PANIC" then propfail "panic" else "BADLINE"
+
 end LV.Driver.PoolOp
